@@ -32,7 +32,7 @@ from ..gen import flowjson as FJ
 from ..gen import sheets as G
 
 MANIFEST = dict(
-    text="Proof: Lean theorem strip_renaming_invariant (for every flow, every injective renaming of identifiers, both id modes, and every header-order / CSV-export function of uuid-free data, the stripped sheet of the renamed flow equals the stripped sheet of the flow) over a line-by-line model of FlowContainer.to_rows (DFS with visited/completed sets, reverse child order, go_to rows with fresh ids, temp-id remapping) that is polymorphic in the identifier type; stripped_rows_U_free (the output type has no identifier component), numbered_ids (ids are 1..n in row order), named_ids_nodup, needs_injective (negative witness). Tied to the code by a differential run model-vs-real to_rows on generated and compiled flows, and the statement itself is evaluated on the REAL flows_to_sheets --strip_uuids: byte-identical CSV files under random / order-reversing / non-UUID / swapping / permuting bijective renamings of all uuids, no uuid in any cell.",
+    text="Proof: Lean theorem strip_renaming_invariant (for every flow, every injective renaming of identifiers, both id modes, and every header-order / CSV-export function of uuid-free data, the stripped sheet of the renamed flow equals the stripped sheet of the flow) over a line-by-line model of FlowContainer.to_rows (DFS with visited/completed sets, reverse child order, go_to rows with fresh ids, temp-id remapping) that is polymorphic in the identifier type; stripped_rows_U_free (the output type has no identifier component), toRows_temp_ids_nodup (DFS invariant), numbered_ids (ids are 1..n in row order), named_ids_nodup (unique, never 'start'), toRows_fuel_sufficient / remap_only_key_error (the model's fuels are never exhausted), needs_injective (negative witness, replayed on the real exporter), tables_agree (excluded headers = headers of the uuid-carrying row fields). Tied to the code by a differential run model-vs-real to_rows on generated and compiled flows, and the statement itself is evaluated on the REAL flows_to_sheets --strip_uuids: byte-identical CSV files under random / order-reversing / non-UUID / swapping / permuting bijective renamings of all uuids, no uuid in any cell.",
     ref="§5 C17",
     note="Trusts: Lean kernel (axioms audited each run), the differential harness and Driver JSON codec; action/router content of a row and edge labels are opaque uuid-free strings supplied by the harness from the real objects (their uuid-freeness is checked by the cell scan, not proved); RowParser.unparse_row, networkx.topological_sort and tablib CSV export are uninterpreted functions of the uuid-free rows. WhatsApp template ids are not in the statement's renaming list and are held fixed; that they survive --strip_uuids is known finding F-C17-a.",
     technique="Lean 4 proof (equivariance of the exporter DFS under injective renamings; parametricity of the stripped output) + metamorphic oracle on the real CLI path + model/code correspondence",
@@ -812,6 +812,26 @@ def known_streams(ck, workdir):
             ck.violation(beyond["what"], {"document": beyond["document"], "renaming_kinds": kinds, "subseed": 2, "detail": beyond["detail"], "stream": "F-C17-b document (failure beyond the known pattern)"})
 
 
+def witness_replay(ck, workdir):
+    """Props/C17.lean needs_injective on the real code: merging the two nodes of a → b (a NON-injective renaming)
+    turns the edge into a self loop, and the real sheet gets a go_to row as well."""
+    g = FJ.FlowGen(random.Random(3), 1, special_text=False)
+    doc = FJ.gen_container(random.Random(1), 1, special_text=False)
+    a, b = g.uuid(), g.uuid()
+    doc["flows"][0]["nodes"] = [
+        {"uuid": a, "actions": [{"uuid": g.uuid(), "type": "send_msg", "text": "a", "attachments": [], "quick_replies": []}], "exits": [{"uuid": g.uuid(), "destination_uuid": b}]},
+        {"uuid": b, "actions": [{"uuid": g.uuid(), "type": "send_msg", "text": "b", "attachments": [], "quick_replies": []}], "exits": [{"uuid": g.uuid(), "destination_uuid": None}]},
+    ]
+    doc["groups"] = []
+    for numbered in (False, True):
+        base = export_files(doc, numbered, workdir)
+        merged = export_files(apply_renaming(doc, {b: a}), numbered, workdir)
+        ck.count("needs_injective_witness_replayed")
+        if base == merged or b"go_to" not in merged["flow.csv"] or b"go_to" in base["flow.csv"]:
+            ck.tie_break("needs_injective witness: the real exporter does not react to merging two nodes like the model",
+                         {"base": base["flow.csv"].decode(), "merged": merged["flow.csv"].decode()})
+
+
 # ------------------------------------------------------------------ run
 
 
@@ -837,15 +857,16 @@ def run(ck: core.Check):
         "row content (action / router fields) and edge conditions are opaque uuid-free strings in the model: that get_row_model_fields / "
         "get_exit_edge_pairs / short_name put no uuid of the renaming list into them is checked on every case by the cell scan, not proved "
         "(known exceptions: F-C17-a template id, F-C17-b has_group outside a group split)",
-        "the model's recursion fuel (|nodes|+1) and counter fuel (|used names|+1) are never exhausted: not proved, checked by the tie on every case "
-        "(the theorems hold for the error results as well)",
+        "no temp id lookup of the remapping fails (KeyError): not proved, checked by the tie on every case (the invariance theorems hold for the error "
+        "results as well; recursion fuel and uniqueness-counter fuel ARE proved sufficient)",
         "unparse_row / topological_sort / tablib export are uninterpreted functions of the uuid-free rows (sheet_renaming_invariant is parametric in them)",
     ]
     workdir = tempfile.mkdtemp(prefix="c17_")
     try:
         with LogCapture():
             known_streams(ck, workdir)
-        n_total = 640 if quick else 9600
+            witness_replay(ck, workdir)
+        n_total = 640 if quick else 6400
         maxnodes = 9 if quick else 16
         nshards = par.NPROC * (1 if quick else 3)
         tie_docs = []
